@@ -3,12 +3,15 @@ import Chrono.Model.Rfc2822
 /-!
   Driver ops of C11 (prefix `r2.`); a zone-aware value is `<yof> <secs> <frac> <off>` = packed date,
   seconds of day and nanoseconds of its UTC reading, and `local_minus_utc`.
-  * `r2.parse x<text>`                    → `ok <yof> <secs> <frac> <off>` | `err` | `panic`
-      (`DateTime::parse_from_rfc2822`; the error kind is not part of the comparison)
+  * `r2.parse x<text>`                    → `ok <yof> <secs> <frac> <off>` | `err <kind>` | `panic`
+      (`DateTime::parse_from_rfc2822`; the error kind IS part of the comparison)
   * `r2.write <yof> <secs> <frac> <off>`  → `x<text>` | `panic`   (`DateTime::to_rfc2822`)
   * `r2.rt <yof> <secs> <frac> <off>`     → `parse_from_rfc2822(&to_rfc2822())` in the form of `r2.parse`
   * `r2.item <yof> <secs> <frac> <off>`   → `x<text>` | `err` | `panic`
       (`DateTime::format_with_items([Fixed::RFC2822])` written into a `String`; `err` = `fmt::Error`)
+  * `r2.items <items> <yof> <secs> <frac> <off>` → the same for ANY item list (`format_with_items(items)`)
+  * `r2.pitems <items> x<text>`           → `parse(&mut Parsed::new(), text, items)?; parsed.to_datetime()` in the
+      form of `r2.parse`
 -/
 namespace Chrono.Drv.Rfc2822
 open Chrono Chrono.M Chrono.Drv
@@ -18,7 +21,7 @@ def showZ (z : Zoned) : String := s!"{z.utc.date.yof} {z.utc.time.secs} {z.utc.t
 def showRP (r : Parsed.RP Zoned) : String :=
   match r with
   | .ok (.ok z) => s!"ok {showZ z}"
-  | .ok (.error _) => "err"
+  | .ok (.error e) => s!"err {e.code}"
   | .panic => "panic"
 
 def handle (op : String) (args : List String) : Option String :=
@@ -40,6 +43,15 @@ def handle (op : String) (args : List String) : Option String :=
           | .ok none => "err"
           | .panic => "panic")
       | _ => bad)
+  | "r2.items", [is, y, s, f, o] => some (match decodeItems is, ints? [y, s, f, o] with
+      | some is, some [y, s, f, o] => (match Rfc2822.format_with_items ⟨⟨⟨y⟩, ⟨s, f⟩⟩, o⟩ is with
+          | .ok (some b) => hexEncode b
+          | .ok none => "err"
+          | .panic => "panic")
+      | _, _ => bad)
+  | "r2.pitems", [is, s] => some (match decodeItems is, hexDecode s with
+      | some is, some bs => showRP (Rfc2822.parse_items_to_datetime bs is)
+      | _, _ => bad)
   | _, _ => none
 
 end Chrono.Drv.Rfc2822
